@@ -250,6 +250,9 @@ class SchedProp:
 
     def crashed(self, run: Run, case: SchedCase, err: str) -> None:
         """the real scheduler did not get through the history"""
+        if err.startswith('TooSlow'):
+            run.stats['too_slow'] = run.stats.get('too_slow', 0) + 1        # inconclusive: not judged
+            return
         run.stats['crashes'] = run.stats.get('crashes', 0) + 1
         if err.startswith('Runaway') or 'does not return' in err:
             # a failing input for every scheduler property: the operation does not complete and a job is executed over
